@@ -71,6 +71,22 @@ impl TraitHandler for CloneEnumHandler {
 
             let mut clone_types: Vec<&Type> = Vec::new();
 
+            // the `Copy` impl shares the where clause, so every field type has to be `Copy` then
+            #[cfg(feature = "Copy")]
+            let copy_types: Option<Vec<&Type>> = if traits.contains(&Trait::Copy) {
+                Some(
+                    variants
+                        .iter()
+                        .flat_map(|(_, fields)| fields.iter().map(|(field, _)| &field.ty))
+                        .collect(),
+                )
+            } else {
+                None
+            };
+
+            #[cfg(not(feature = "Copy"))]
+            let copy_types: Option<Vec<&Type>> = None;
+
             if variants.is_empty() {
                 if !contains_copy {
                     clone_token_stream.extend(quote!(unreachable!()));
@@ -215,13 +231,13 @@ impl TraitHandler for CloneEnumHandler {
 
             bound = type_attribute.bound.into_where_predicates_by_generic_parameters_check_types(
                 &ast.generics.params,
-                &syn::parse2(if contains_copy {
+                &syn::parse2(if copy_types.is_some() {
                     quote!(::core::marker::Copy)
                 } else {
                     quote!(::core::clone::Clone)
                 })
                 .unwrap(),
-                &clone_types,
+                copy_types.as_ref().unwrap_or(&clone_types),
                 &[],
             );
         }
